@@ -92,10 +92,28 @@ package streampool
 //@ func iface drpc.Stream.MsgSend
 //@   modifies nothing
 //@   sets sendFailed = result != nil
-//@ func (*stream).streamClose
-//@   trusted
+//@ ghost poolRemovals Int stable
+//@ ghost poolRemovedId Int stable
+//@ ghost firstClose Bool stable
+//@ func (*streamPool).removeStream
+//@   sets poolRemovals = poolRemovals + 1
+//@   sets poolRemovedId = streamId
+//@ func (*sync/atomic.Bool).Swap
 //@   modifies nothing
+//@   sets firstClose = !result
+//@ func (*github.com/cheggaaa/mb/v3.MB[T]).Close
+//@   modifies nothing
+//@ func iface drpc.Stream.Close
+//@   modifies nothing
+// ending a stream always takes its record out of the pool - whatever closing the queue or the
+// transport returns - exactly once (the first close), and never on a repeated close
+//@ func (*stream).streamClose
+//@   modifies kinds map:map[string][]uint32 map:map[uint32]*streampool.stream uint32 bool
+//@   requires sr != nil
+//@   assumes sr.pool != nil && sr.queue != nil && sr.stream != nil
 //@   sets closeRequested = true
+//@   ensures [first_close_removes_the_record] firstClose ==> poolRemovals == old(poolRemovals) + 1 && poolRemovedId == old(sr.streamId)
+//@   ensures [repeated_close_does_nothing]   !firstClose ==> poolRemovals == old(poolRemovals)
 //@ func (*stream).writeLoop
 //@   requires sr != nil
 //@   assumes sr.queue != nil && sr.stream != nil
@@ -109,3 +127,34 @@ package streampool
 //@   ensures [one_task_at_a_time] batchDrains == old(batchDrains)
 //@   loop 0:
 //@     invariant batchDrains == old(batchDrains)
+
+// ---------------------------------------------------------------------------------------------
+// C19: a stream's outbound queue is bounded by the configured size: the queue is created with exactly
+// the requested capacity, the default (100) only when none was requested (size <= 0), and the new
+// stream is registered under its own fresh id.
+//@ ghost mbCap Int stable
+//@ package github.com/cheggaaa/mb/v3
+//@ func New
+//@   modifies nothing
+//@   posits [queue_exists] result != nil
+//@   sets mbCap = arg0
+//@ package github.com/anyproto/any-sync/net/peer
+//@ func CtxPeerId
+//@   modifies nothing
+//@ package github.com/anyproto/any-sync/net/streampool
+//@ func iface drpc.Stream.Context
+//@   modifies nothing
+//@ func newStreamStat
+//@   modifies nothing
+//@ func (*streamPool).addStream
+//@   requires s != nil && drpcStream != nil
+//@   assumes s.streams != nil && s.streamIdsByPeer != nil && s.streamIdsByTag != nil
+//@   ensures [queue_bounded_as_configured] result1 == nil && queueSize > 0 ==> mbCap == queueSize
+//@   ensures [default_only_when_unset]     result1 == nil && queueSize <= 0 ==> mbCap == 100
+//@   ensures [registered_under_new_id]     result1 == nil ==> result0 != nil && result0.streamId == wrap32(old(s.lastStreamId) + 1) && result0.queue != nil && result0.pool == s
+//@   loop 0:
+//@     invariant s != nil && s.streamIdsByTag != nil
+//@     invariant st != nil && st.queue != nil && st.pool == s
+//@     invariant st.streamId == wrap32(old(s.lastStreamId) + 1)
+//@     invariant mbCap == queueSize && (atentry(queueSize) > 0 ==> true)
+//@     invariant -1 <= rangeindex && rangeindex < len(tags)
